@@ -135,3 +135,70 @@ Proof.
   - exists q. split; assumption.
   - unfold snap_tasks. simpl. constructor; [apply snap_task_fixed; exact Hc|constructor].
 Qed.
+
+(* ------------------------------------------------------------------ the task-cost clause on the multitask tail of the GP endpoint
+   (Model.TaskTail / Model.EndpointTail.gp_tail): every returned cost is a nearest option of the raw task coordinate of the row it is
+   returned with - for the proposals that were kept and for the rows drawn to replace rejected duplicates alike *)
+From LV Require Import Model.TaskTail.
+Module DSX := LV.Model.Distinct.
+
+Lemma forall2_map_l {A B C} (P : B -> C -> Prop) (f : A -> B) : forall l m, Forall2 (fun a c => P (f a) c) l m -> Forall2 P (map f l) m.
+Proof. induction 1; simpl; constructor; assumption. Qed.
+Theorem task_tail_costs_snapped d opts parallel af xs hist hist_oh o r : opts <> [] ->
+  gp_tail d opts parallel af xs hist hist_oh o = Some r ->
+  exists out costs, task_tail_rows d opts af xs hist_oh o = Some out /\
+    r_points r = map (@removelast Q) out /\ r_costs r = Some costs /\
+    Forall2 (fun p c => In c opts /\ forall e, In e opts -> Qabs (last p 0 - c) <= Qabs (last p 0 - e)) out costs.
+Proof.
+  intros Hne H. destruct opts as [|o1 orest]; [congruence|]. cbn [gp_tail] in H. unfold task_tail_rows. unfold obind in *.
+  set (opts := o1 :: orest) in *. set (dt := with_task d opts) in *.
+  destruct (convert_from_one_hot dt false af (g_dec o) xs) as [pts|]; [|discriminate].
+  destruct (decode_b dt (g_hdec o) hist_oh) as [aug|]; [|discriminate].
+  destruct (replace_dups dt pts aug uniq_tol (g_choice o) (g_q o)) as [out|]; [|discriminate]. injection H as <-.
+  exists out, (snap_tasks (map (fun p : point => last p 0) out) opts). cbn [r_points r_costs].
+  split; [reflexivity|]. split; [reflexivity|]. split; [reflexivity|].
+  pose proof (snap_tasks_nearest (map (fun p : point => last p 0) out) opts Hne) as Hs.
+  unfold snap_tasks in *. rewrite map_map in *.
+  clear -Hs. induction out as [|p out IH]; simpl in *; [constructor|]. inversion Hs; subst. constructor; [assumption|apply IH; assumption].
+Qed.
+
+(* the rows the costs are returned with: the proposals kept by the two duplicate tests (in order), followed by the rows drawn for the
+   rejected ones; on an unconstrained domain these are the per-component draws, the LAST column being the uniform draw of the task
+   dimension (the domain with the task dimension is never discrete, so the distinct sampler is the plain per-component sampler) *)
+Theorem task_tail_rows_structure d opts af xs hist_oh o out :
+  task_tail_rows d opts af xs hist_oh o = Some out ->
+  let dt := with_task d opts in
+  exists pts aug kept fill,
+    convert_from_one_hot dt false af (g_dec o) xs = Some pts /\ decode_b dt (g_hdec o) hist_oh = Some aug /\
+    kept_of dt pts aug uniq_tol = Some kept /\ out = kept ++ fill /\
+    ((DSX.zlen pts - DSX.zlen kept =? 0)%Z = true -> fill = []) /\
+    ((DSX.zlen pts - DSX.zlen kept =? 0)%Z = false -> is_constrained d = false ->
+       fill = DSX.quasi_random (DSX.zlen pts - DSX.zlen kept) (q_cols (g_q o))).
+Proof.
+  intros H dt. unfold task_tail_rows, obind in H. fold dt in H.
+  destruct (convert_from_one_hot dt false af (g_dec o) xs) as [pts|] eqn:Ec; [|discriminate].
+  destruct (decode_b dt (g_hdec o) hist_oh) as [aug|] eqn:Ea; [|discriminate].
+  unfold replace_dups in H. destruct (kept_of dt pts aug uniq_tol) as [kept|] eqn:Ek; [|discriminate].
+  destruct (distinct_pts dt (DSX.zlen pts - DSX.zlen kept) aug (g_choice o) (g_q o)) as [fill|] eqn:Ef; [|discriminate].
+  injection H as <-. exists pts, aug, kept, fill.
+  split; [first [reflexivity|exact Ec]|]. split; [first [reflexivity|exact Ea]|]. split; [first [reflexivity|exact Ek]|]. split; [reflexivity|]. split.
+  - intros Hz. unfold distinct_pts in Ef. rewrite Hz in Ef. congruence.
+  - intros Hz Hc. unfold distinct_pts in Ef. rewrite Hz in Ef.
+    assert (Hd : is_discrete dt = false).
+    { unfold dt, is_discrete, DSX.is_discrete, ddom. cbn [with_task comps]. rewrite map_app, forallb_app. simpl. apply andb_false_r. }
+    rewrite Hd in Ef. simpl in Ef. unfold quasi_points in Ef.
+    assert (Hk : is_constrained dt = false).
+    { unfold is_constrained in *. unfold dt. cbn [with_task cons]. rewrite map_length. exact Hc. }
+    rewrite Hk in Ef. congruence.
+Qed.
+
+Lemma task_costs_okb_sound opts rows costs : task_costs_okb opts rows costs = true ->
+  Forall2 (fun p c => InA Qeq c opts /\ forall e, In e opts -> Qabs (last p 0 - c) <= Qabs (last p 0 - e)) rows costs.
+Proof.
+  unfold task_costs_okb. intros H. apply andb_true_iff in H as [_ H]. revert costs H.
+  induction rows as [|p rows IH]; intros [|c costs] H; simpl in H; try discriminate; constructor.
+  - apply andb_true_iff in H as [H _]. unfold nearest_option_b in H. apply andb_true_iff in H as [H1 H2]. split.
+    + apply existsb_exists in H1 as (e & He & Heq). apply Qeq_bool_iff in Heq. apply InA_alt. exists e. split; assumption.
+    + rewrite forallb_forall in H2. intros e He. apply Qle_bool_iff. apply H2. exact He.
+  - apply IH. apply andb_true_iff in H as [_ H]. exact H.
+Qed.
